@@ -98,6 +98,13 @@ pub enum Call {
     /// held by the anchor table of a failing (`ok: false`) or succeeding (`ok: true`, last-wins duplicate key)
     /// document, so the inner call runs while that table is being torn down
     DropReenters { ok: bool, arc: bool },
+    /// an un-anchored wrapper inside an anchored one takes the outer anchor's slot; the outer value replaces it
+    /// there, and the replaced entry holds the last reference to a value whose `Drop` makes a call
+    DropReentersReplaced,
+    /// a sequence of wrappers of which only the first and the third share an anchor
+    RcMixedSeq,
+    /// a visitor panics; while the panic unwinds, the `Drop` impl of a value that was already built makes a call
+    DropDuringUnwind,
     /// ten anchored user values whose last references are held by the anchor table of a failing document:
     /// the result is the order in which their `Drop` impls run
     DropOrder { arc: bool },
@@ -114,7 +121,10 @@ pub enum Call {
 /// marker with which a call reports that its result with a nested call differs from the flat equivalent
 const NESTED_MISMATCH: &str = "NESTED-VS-FLAT-MISMATCH";
 
-pub const BASIC: [Call; 64] = [
+pub const BASIC: [Call; 67] = [
+    Call::DropReentersReplaced,
+    Call::RcMixedSeq,
+    Call::DropDuringUnwind,
     Call::DropOrder { arc: false },
     Call::DropOrder { arc: true },
     Call::ValidDebug { validator: false },
@@ -231,6 +241,45 @@ impl Drop for DropCalls {
         let inner = Call::OkJsonAnchors;
         let r = run_call(&inner);
         let _ = NEST_LOG.try_with(|l| l.borrow_mut().push((inner, r)));
+    }
+}
+
+/// Like `DropCalls`, with an inner call that is sensitive to a stale anchor context.
+#[derive(Debug)]
+struct DropCallsMixed(#[allow(dead_code)] i32);
+impl<'de> Deserialize<'de> for DropCallsMixed {
+    fn deserialize<D: serde::Deserializer<'de>>(d: D) -> Result<Self, D::Error> {
+        Ok(DropCallsMixed(i32::deserialize(d)?))
+    }
+}
+impl Drop for DropCallsMixed {
+    fn drop(&mut self) {
+        let inner = Call::RcMixedSeq;
+        let r = run_call(&inner);
+        let _ = NEST_LOG.try_with(|l| l.borrow_mut().push((inner, r)));
+    }
+}
+
+#[derive(Debug, Deserialize)]
+#[allow(dead_code)]
+struct UnwindDoc {
+    a: DropCallsMixed,
+    p: RcAnchor<PanicField>,
+}
+
+/// A mapping type that reads its `item` through an anchor wrapper and does not keep it.
+#[derive(Debug)]
+struct OuterDiscards;
+impl<'de> Deserialize<'de> for OuterDiscards {
+    fn deserialize<D: serde::Deserializer<'de>>(d: D) -> Result<Self, D::Error> {
+        #[derive(Deserialize)]
+        struct Raw {
+            #[allow(dead_code)]
+            item: RcAnchor<DropCalls>,
+        }
+        let raw = Raw::deserialize(d)?;
+        drop(raw);
+        Ok(OuterDiscards)
     }
 }
 
@@ -564,6 +613,16 @@ pub fn run_call(c: &Call) -> String {
                 ),
             }
         }
+        Call::DropReentersReplaced => res(guard(|| serde_saphyr::from_str::<RcAnchor<OuterDiscards>>("&a { item: 5 }\n")), |_| "ok".to_string()),
+        Call::RcMixedSeq => res(guard(|| serde_saphyr::from_str::<Vec<RcAnchor<i32>>>("- &a 1\n- 7\n- *a\n- 9\n")), |v| {
+            format!(
+                "{:?} first=third: {} first=second: {}",
+                v.iter().map(|x| *x.0).collect::<Vec<_>>(),
+                v.len() == 4 && std::rc::Rc::ptr_eq(&v[0].0, &v[2].0),
+                v.len() == 4 && std::rc::Rc::ptr_eq(&v[0].0, &v[1].0)
+            )
+        }),
+        Call::DropDuringUnwind => res(guard(|| serde_saphyr::from_str::<UnwindDoc>("a: 1\np: &t x\n")), |v| format!("{v:?}")),
         Call::DropOrder { arc } => {
             let doc: String = (1..=10).map(|i| format!("- &a{i} r{i:02}\n")).collect::<String>() + "- [bad]\n";
             DROP_ORDER.with(|l| l.borrow_mut().clear());
